@@ -3,6 +3,7 @@ import PebblesVerif.Proofs.Eval
 import PebblesVerif.Proofs.Sanitize
 import PebblesVerif.Proofs.OneHop
 import PebblesVerif.Model.Exec
+import PebblesVerif.Model.SanitizeShared
 /-!
 # C01 — federated execution equals a single server
 
@@ -115,6 +116,20 @@ theorem C01_find_selection_depth_first_shadowed :
     (ResultOps.findSelectionDF "items" ss).map ResultOps.selType = some (.named "Item") ∧
     (ResultOps.findSelectionLF "items" ss).map ResultOps.selType = some (.list (.named "Item")) := by
   exact ⟨rfl, rfl⟩
+
+/-! ## The sanitiser has value semantics -/
+
+/-- **The planner the correspondence runs against the real code is the value-level planner of the
+    theorems, for EVERY operation** — in particular for operations that spread one fragment more
+    than once. Stands on the regenerated fact that `sanitizeSelectionSet` works on copies of the
+    document's nodes (`Gen.Sanitize.copiesNodes`, read from planner/sanitize_selection_set.go on every
+    run). While it wrote into the shared nodes, the second expansion of a fragment found the helper
+    `id` the first one had put there and registered no scrub entry: `{ q0 { ...F0 } a: q0 { ...F0 } }`
+    leaked `id` under `a` (the sharing model `planShared` reproduces that; see
+    `Model/SanitizeShared.lean`). -/
+theorem C01_planner_value_semantics (c : PCtx) (op : Op) : planFor c op = plan c op := by
+  have hfact : Gen.Sanitize.copiesNodes = true := by decide
+  simp [planFor, hfact]
 
 /-! ## The semantic core of federation (reference evaluator) -/
 
